@@ -767,6 +767,56 @@ func duplicateLink() {
 	vrt.Observe("same=%v accepted=%v", same, accepted)
 }
 
+// twoProperties: an object with two properties; a client writes one while the service
+// updates the other (and, in the second flavour, another client writes the other). Both
+// writes are acknowledged, so both values are there afterwards: a property table that is
+// copied and republished loses one of them (seed C14-19).
+func twoProperties(fine bool) func() {
+	return func() {
+		w := fx.Start(bus.Yes{})
+		c1, c2 := w.MustConnect(), w.MustConnect()
+		p1, p2 := c1.Probe(1), c2.Probe(1)
+		remote := vrt.ChooseFree(2, "the other property is written by a client") == 1
+		if err := w.Root.Helper.UpdateMode(1); err != nil {
+			vrt.Failf("harness/update-mode", "%v", err)
+			return
+		}
+		vrt.Quiesce()
+		vrt.Explore()
+		vrt.SetFine(fine)
+		var e1, e2 error
+		wa := vrt.GoWorker("level-writer", func() { e1 = p1.SetLevel(5) })
+		wb := vrt.GoWorker("mode-writer", func() {
+			if remote {
+				e2 = p2.SetMode(9)
+			} else {
+				e2 = w.Root.Helper.UpdateMode(9)
+			}
+		})
+		vrt.Quiesce()
+		fx.Settle(wa, wb)
+		vrt.SetFine(false)
+		vrt.Freeze()
+		if e1 != nil || e2 != nil {
+			vrt.Failf("write-refused/two-properties", "setProperty(level,5): %v; mode := 9: %v", e1, e2)
+			return
+		}
+		lv, lerr := p2.GetLevel()
+		mv, merr := p1.GetMode()
+		if lerr != nil || merr != nil {
+			vrt.Failf("read-failed/two-properties", "level: %v, mode: %v", lerr, merr)
+			return
+		}
+		if lv != 5 {
+			vrt.Failf("acknowledged-write-lost/level", "setProperty(level, 5) was acknowledged while the other property of the object was written; level reads %d", lv)
+		}
+		if mv != 9 {
+			vrt.Failf("acknowledged-write-lost/mode", "mode := 9 was acknowledged while the other property of the object was written; mode reads %d", mv)
+		}
+		vrt.Observe("remote=%v level=%d mode=%d", remote, lv, mv)
+	}
+}
+
 func init() {
 	reg.Register(&reg.Scenario{Property: "C14", Name: "four-property-subscription-cycles", Body: propertyCycles, Quick: 0, Thorough: 1,
 		Doc: "the same proxy follows the level property, sees a client write and a service-side update, cancels, misses a write - four lives in a row: each life receives exactly its own two change events once"})
@@ -774,6 +824,10 @@ func init() {
 		Doc: "three clients write ten values each while the subscriber does not read (30 pending events, the subscription queue holds 100); then it reads: every accepted write exactly once, each writer's in order"})
 	reg.Register(&reg.Scenario{Property: "C14", Name: "link-id-already-in-use", Body: duplicateLink, Quick: 0, Thorough: 1,
 		Doc: "a raw client registers for events with a link id another connection already uses on the object (same signal / other signal): refused with an error, or really subscribed"})
+	reg.Register(&reg.Scenario{Property: "C14", Name: "two-properties", Body: twoProperties(false), Quick: 2, Thorough: 3,
+		Doc: "an object with two properties: setProperty(level,5) by a client || mode := 9 by the service (or by another client): both acknowledged writes are read back afterwards"})
+	reg.Register(&reg.Scenario{Property: "C14", Name: "two-properties-statement-level", Body: twoProperties(true), Quick: 1, Thorough: 2,
+		Doc: "the same with a scheduling point in front of every statement of bus/object.go"})
 	reg.Register(&reg.Scenario{Property: "C14", Name: "cancelled-write", Body: cancelledWrite, Quick: 2, Thorough: 3,
 		Doc: "a client write waits in the mailbox behind a slow call; its context is cancelled; then the object is released and another write follows: the cancelled write takes effect at most once", MustFlag: []string{"writer-told-cancelled"}})
 	reg.Register(&reg.Scenario{Property: "C14", Name: "broken-subscriber", Body: brokenSubscriber, Quick: 1, Thorough: 2,
